@@ -8,71 +8,36 @@ column — the executable pipeline model (`distributed` / `central`, compared wi
 code on every run) applies exactly these functions column-wise.
 -/
 import DtailModel.Model.Aggregate
+import DtailModel.Lemmas.AggAlgebra
+import DtailModel.Lemmas.GenAggregate
+import DtailModel.Lemmas.AggPipeline
 namespace Dtail.C05
 open Dtail
 
-/-- a column state as an operation produces it -/
-def Col.Wf (op : AggOp) (c : Col) : Prop :=
-  match op with
-  | .count | .sum | .avg | .min | .max => c.str = none
-  | .last => c.num = none
-  | .len => (c.num.isSome ↔ c.str.isSome)
-  | .undef => c = {}
-
 /-- merging is associative for every aggregation operation -/
 theorem C05_combine_assoc (op : AggOp) (a b c : Col) :
-    combine op (combine op a b) c = combine op a (combine op b c) := by
-  obtain ⟨an, as⟩ := a; obtain ⟨bn, bs⟩ := b; obtain ⟨cn, cs⟩ := c
-  cases op <;> cases an <;> cases bn <;> cases cn <;> cases as <;> cases bs <;> cases cs <;>
-    simp [combine, addNum, minNum, maxNum, Int.add_assoc] <;> (try split) <;> (try split) <;> (try split) <;> omega
+    combine op (combine op a b) c = combine op a (combine op b c) := combine_assoc op a b c
 
 /-- for count, sum, avg, min and max merging is commutative: partial results may arrive in
     any order -/
 theorem C05_combine_comm (op : AggOp) (a b : Col)
     (hop : op = .count ∨ op = .sum ∨ op = .avg ∨ op = .min ∨ op = .max) :
-    combine op a b = combine op b a := by
-  obtain ⟨an, as⟩ := a; obtain ⟨bn, bs⟩ := b
-  rcases hop with rfl | rfl | rfl | rfl | rfl <;> cases an <;> cases bn <;>
-    simp [combine, addNum, minNum, maxNum, Int.add_comm] <;> (try split) <;> (try split) <;> omega
+    combine op a b = combine op b a := combine_comm op a b hop
 
 /-- the empty column is a right identity, and a left identity on well-formed columns -/
 theorem C05_combine_empty (op : AggOp) (a : Col) (h : Col.Wf op a) :
-    combine op a {} = a ∧ combine op {} a = a := by
-  obtain ⟨an, as⟩ := a
-  cases op <;> cases an <;> cases as <;> simp_all [combine, addNum, minNum, maxNum, Col.Wf]
-
-theorem combine_wf (op : AggOp) (a b : Col) (ha : Col.Wf op a) (hb : Col.Wf op b) :
-    Col.Wf op (combine op a b) := by
-  obtain ⟨an, as⟩ := a; obtain ⟨bn, bs⟩ := b
-  cases op <;> cases an <;> cases bn <;> cases as <;> cases bs <;> simp_all [combine, Col.Wf]
-
-/-- the column after a sequence of contributions (lines of one group, in order) -/
-def colFold (op : AggOp) (ks : List Col) : Col := ks.foldl (combine op) {}
-
-theorem foldl_combine_from (op : AggOp) (c : Col) (ks : List Col) (hc : Col.Wf op c)
-    (hk : ∀ k ∈ ks, Col.Wf op k) :
-    ks.foldl (combine op) c = combine op c (colFold op ks) ∧ Col.Wf op (ks.foldl (combine op) c) := by
-  induction ks generalizing c with
-  | nil => exact ⟨((C05_combine_empty op c hc).1).symm, hc⟩
-  | cons k ks ih =>
-    have hk0 := hk k (by simp)
-    have hks : ∀ x ∈ ks, Col.Wf op x := fun x hx => hk x (List.mem_cons_of_mem _ hx)
-    have hwf0 : Col.Wf op ({} : Col) := by cases op <;> simp [Col.Wf]
-    have h1 := ih (combine op c k) (combine_wf op c k hc hk0) hks
-    have h2 := ih (combine op {} k) (combine_wf op {} k hwf0 hk0) hks
-    refine ⟨?_, h1.2⟩
-    simp only [List.foldl_cons, colFold]
-    rw [h1.1, h2.1, (C05_combine_empty op k hk0).2, C05_combine_assoc]
+    combine op a {} = a ∧ combine op {} a = a := combine_empty op a h
 
 /-- Per-line aggregation is a homomorphism: aggregating the lines of two parts one after the
     other equals merging the two partial aggregates. -/
 theorem C05_homomorphism (op : AggOp) (l1 l2 : List Col)
     (h1 : ∀ k ∈ l1, Col.Wf op k) (h2 : ∀ k ∈ l2, Col.Wf op k) :
-    colFold op (l1 ++ l2) = combine op (colFold op l1) (colFold op l2) := by
-  have hwf0 : Col.Wf op ({} : Col) := by cases op <;> simp [Col.Wf]
-  unfold colFold
-  rw [List.foldl_append]
-  exact (foldl_combine_from op _ l2 (foldl_combine_from op {} l1 hwf0 h1).2 h2).1
+    colFold op (l1 ++ l2) = combine op (colFold op l1) (colFold op l2) := colFold_append op l1 l2 h1 h2
+
+/-- what a line contributes is well-formed for its operation, so the theorems above apply to
+    every contribution the model's `aggLine` ever combines -/
+theorem C05_contribution_wf (op : AggOp) (fs : Fields) (field : Bytes) (c : Col)
+    (h : contribution op fs field = some c) : Col.Wf op c := contribution_wf op fs field c h
 
 /-- **Distributed = central, every operation.**  However the lines of a group are split into
     partials (servers × files × serialisation intervals, empty parts included), merging the
@@ -134,18 +99,6 @@ theorem C05_samples (parts : List (List Nat)) :
   | nil => rfl
   | cons p ps ih => simp [List.sum_append, ih]
 
-/-- what a line contributes is well-formed for its operation, so the theorems above apply to
-    every contribution the model's `aggLine` ever combines -/
-theorem C05_contribution_wf (op : AggOp) (fs : Fields) (field : Bytes) (c : Col)
-    (h : contribution op fs field = some c) : Col.Wf op c := by
-  unfold contribution at h
-  cases hg : getField fs field with
-  | none => simp [hg] at h
-  | some v =>
-    simp only [hg] at h
-    cases op <;> simp at h <;> (try (subst h; simp [Col.Wf]))
-    all_goals (obtain ⟨n, _, rfl⟩ := h; simp [Col.Wf])
-
 /-- The defect that was repaired: with an absent operand read as 0 the merge of min was not
     the minimum (kernel-checked on the old formula). -/
 theorem C05_old_merge_wrong : (if (5 : Int) > 0 then (0 : Int) else 5) ≠ 5 := by decide
@@ -156,5 +109,86 @@ example :
       [[[(b!"g", b!"A"), (b!"x", b!"5")]], [[(b!"g", b!"A")]]]
     = central [⟨b!"x", b!"min(x)", .min⟩] [b!"g"] [[(b!"g", b!"A"), (b!"x", b!"5")], [(b!"g", b!"A")]] := by
   decide
+
+/-! ### The pipeline as a whole -/
+
+/-- **Distributed = central for the executable pipeline model** (the very functions the differential
+    run compares with the real server / client aggregates on every run).  For every select list, every
+    group-by list, every list of partial results — all lines cut into servers × files ×
+    serialisation intervals in any way, empty parts included, merged in arrival order — and every
+    group key: the client's global group holds exactly the aggregate set that one central evaluation
+    over all lines holds (samples and every column; a group none of whose lines contributed anything
+    is absent on both sides). -/
+theorem C05_pipeline (sel : List SelCond) (groupBy : List Bytes) (parts : List (List Fields)) (k : Bytes) :
+    AggPipe.lookup (distributed sel groupBy parts) k = AggPipe.lookup (central sel groupBy parts.flatten) k :=
+  AggPipe.distributed_eq_central sel groupBy parts k
+
+/-- **… in any arrival order** when the query aggregates with count, sum, avg, min and max -/
+theorem C05_pipeline_any_arrival_order (sel : List SelCond) (groupBy : List Bytes) (hc : AggPipe.CommOps sel)
+    (parts parts' : List (List Fields)) (hp : parts.Perm parts') (k : Bytes) :
+    AggPipe.lookup (distributed sel groupBy parts) k = AggPipe.lookup (distributed sel groupBy parts') k :=
+  AggPipe.distributed_perm sel groupBy hc parts parts' hp k
+
+/-- what the global group holds for a group: the fold of the model's per-line step over the group's
+    lines, in line order, if any of them contributed -/
+theorem C05_pipeline_value (sel : List SelCond) (groupBy : List Bytes) (parts : List (List Fields)) (k : Bytes) :
+    AggPipe.lookup (distributed sel groupBy parts) k =
+      (let s := (parts.flatten.filter fun fs => groupKeyOf groupBy fs = k).foldl (aggLine sel) (emptySet sel.length)
+       if AggPipe.hasData s then some s else none) := by
+  rw [C05_pipeline, AggPipe.central_lookup]; rfl
+
+/-! ### Tie G: the aggregation code translated from the working tree refines this algebra -/
+
+/-- the well-formedness used by the refinement lemmas is the `Col.Wf` of this file -/
+theorem C05_wf_same (op : AggOp) (c : Col) : GenAgg.ColWf op c ↔ Col.Wf op c := Iff.rfl
+
+/-- **`AggregateSet.Aggregate` as translated from internal/mapr/aggregateset.go on this run is the
+    model's per-line step**: for every aggregation operation, every aggregate set and every field
+    value, the server-side call changes the column under its storage key to `combine op old c`, with
+    `c` the model's `contribution` of the value, touches no other key, and reports an error exactly
+    when the value contributes nothing (`strconv.ParseFloat` is a parameter: it must agree with the
+    model's `parseNum`). -/
+theorem C05_generated_aggregate_refines_model (ext : Go.Ext) (hpf : GenAgg.ParseFloatIs ext)
+    (g : Gen.Mapr.AggregateSet) (field storage v : Bytes) (op : AggOp) (hop : op ≠ .undef)
+    (hwf : Col.Wf op (GenAgg.colOf g storage)) :
+    let r := Gen.Mapr.AggregateSet.Aggregate ext g storage (GenAgg.opCode op) v false
+    contribution op [(field, v)] field = GenAgg.contribOf op v ∧
+    (r.2 = none ↔ (contribution op [(field, v)] field).isSome) ∧
+    GenAgg.colOf r.1 storage =
+      (match contribution op [(field, v)] field with | some c => combine op (GenAgg.colOf g storage) c | none => GenAgg.colOf g storage) ∧
+    (∀ k', k' ≠ storage → GenAgg.colOf r.1 k' = GenAgg.colOf g k') := by
+  intro r
+  have hc : contribution op [(field, v)] field = GenAgg.contribOf op v := by
+    rw [GenAgg.contribution_eq]; simp [getField]
+  have h := GenAgg.Aggregate_refines ext hpf g storage v op hop hwf
+  rw [hc]
+  exact ⟨rfl, h.1, h.2.1, h.2.2.1⟩
+
+/-- **`AggregateSet.Merge` as translated from the working tree is the model's `mergeSet`**, column by
+    column (for count / sum / avg up to reading an absent number as 0, which is how every consumer
+    reads it), for every select list with pairwise different storage keys. -/
+theorem C05_generated_merge_refines_model (ext : Go.Ext) (sel : List SelCond) (hnd : (sel.map (·.storage)).Nodup)
+    (hops : ∀ sc ∈ sel, sc.op ≠ .undef) (g g2 : Gen.Mapr.AggregateSet)
+    (hwf : ∀ sc ∈ sel, Col.Wf sc.op (GenAgg.colOf g sc.storage)) (hwf2 : ∀ sc ∈ sel, Col.Wf sc.op (GenAgg.colOf g2 sc.storage)) :
+    let r := Gen.Mapr.AggregateSet.Merge ext g ⟨sel.map GenAgg.genSel⟩ g2
+    r.2 = none ∧ r.1.Samples = g.Samples + g2.Samples ∧
+    (∀ sc ∈ sel, GenAgg.ColObs sc.op (GenAgg.colOf r.1 sc.storage) (combine sc.op (GenAgg.colOf g sc.storage) (GenAgg.colOf g2 sc.storage))) :=
+  let h := GenAgg.Merge_refines ext sel hnd hops g g2 hwf hwf2
+  ⟨h.1, h.2.1, h.2.2.1⟩
+
+/-- reading an absent number as 0 is a congruence for the merge: the approximation of
+    `C05_generated_merge_refines_model` does not grow over a sequence of merges -/
+theorem C05_obs_congr (op : AggOp) (a a' b : Col) (h : GenAgg.ColObs op a a') :
+    GenAgg.ColObs op (combine op a b) (combine op a' b) := by
+  obtain ⟨an, as⟩ := a; obtain ⟨an', as'⟩ := a'; obtain ⟨bn, bs⟩ := b
+  cases op <;> simp_all [GenAgg.ColObs, combine] <;>
+    (cases an <;> cases an' <;> cases bn <;> simp_all [addNum] <;> omega)
+
+/-- the operation numbering of the model is the iota order of the source as translated on this run -/
+theorem C05_operation_codes_are_the_sources :
+    GenAgg.opCode .count = Gen.Mapr.Count ∧ GenAgg.opCode .sum = Gen.Mapr.Sum ∧ GenAgg.opCode .min = Gen.Mapr.Min ∧
+    GenAgg.opCode .max = Gen.Mapr.Max ∧ GenAgg.opCode .last = Gen.Mapr.Last ∧ GenAgg.opCode .avg = Gen.Mapr.Avg ∧
+    GenAgg.opCode .len = Gen.Mapr.Len :=
+  GenAgg.opCode_is_source_iota.2
 
 end Dtail.C05
